@@ -41,6 +41,84 @@ def _cvc5(solver: z3.Solver) -> tuple[str, str]:
     return first, out[:500]
 
 
+Z3_QUICK_RLIMIT = int(os.environ.get("PYVC_Z3_QUICK_RLIMIT", "400000"))
+
+
+def smt2_of(solver: z3.Solver) -> str:
+    return "(set-logic ALL)\n" + solver.to_smt2()
+
+
+def discharge_quick(ob: Obligation) -> str | None:
+    """First pass inside the generating worker: z3 with a small resource limit.  Returns the SMT-LIB text of the query
+    when it is not settled (to be finished by `finish_pending` in the obligation-level pool)."""
+    if ob.status == "trivial":
+        ob.backend = "simplifier"
+        return None
+    t0 = time.time()
+    ax, forms = _query(ob)
+    s = z3.Solver()
+    s.set("rlimit", Z3_QUICK_RLIMIT)
+    s.add(*ax)
+    s.add(*forms)
+    r = s.check()
+    ob.time_s = time.time() - t0
+    if ob.kind == "vacuity":
+        if r == z3.unsat:
+            ob.status, ob.backend, ob.detail = "vacuous", "z3", "precondition together with the axioms is unsatisfiable"
+        else:
+            ob.status, ob.backend, ob.detail = "discharged", "z3", f"satisfiability witness: {r}"
+        return None
+    if r == z3.unsat:
+        ob.status, ob.backend = "discharged", "z3"
+        return None
+    ob.status = "pending"
+    if r == z3.sat:
+        try:
+            ob.detail = "z3 model: " + str(s.model())[:1500]
+        except z3.Z3Exception:
+            pass
+    return smt2_of(s)
+
+
+def finish_pending(task: tuple[str, str, str]) -> dict:
+    """Second pass (one process per obligation): cvc5 on the dump, then z3 with the full budget."""
+    ident, text, quick_detail = task
+    t0 = time.time()
+    text_c = re.sub(r"(?<![\w!.|])sep(?![\w!.|])", "sep_", text)
+    with tempfile.NamedTemporaryFile("w", suffix=".smt2", delete=False) as fh:
+        fh.write(text_c)
+        path = fh.name
+    try:
+        p = subprocess.run([CVC5, "--strings-exp", f"--tlimit={CVC5_TLIMIT_MS}", path], capture_output=True, text=True, timeout=CVC5_TLIMIT_MS / 1000 + 10)
+        out = (p.stdout + p.stderr).strip()
+    except subprocess.TimeoutExpired:
+        out = "timeout"
+    finally:
+        os.unlink(path)
+    first = out.splitlines()[0] if out else ""
+    if first == "unsat":
+        return {"id": ident, "status": "discharged", "backend": "cvc5", "time_s": time.time() - t0, "detail": ""}
+    s = z3.Solver()
+    s.set("rlimit", Z3_RLIMIT)
+    s.from_string(text)
+    r = s.check()
+    dt = time.time() - t0
+    if r == z3.unsat:
+        if first == "sat":
+            return {"id": ident, "status": "engine-disagreement", "backend": "", "time_s": dt, "detail": "z3 unsat, cvc5 sat"}
+        return {"id": ident, "status": "discharged", "backend": "z3", "time_s": dt, "detail": ""}
+    detail = f"z3: {r}" + (f" ({s.reason_unknown()})" if r == z3.unknown else "") + f"; cvc5: {first or out[:80]}"
+    if r == z3.sat or first == "sat" or quick_detail.startswith("z3 model"):
+        model = quick_detail
+        if r == z3.sat and not model:
+            try:
+                model = "z3 model: " + str(s.model())[:1500]
+            except z3.Z3Exception:
+                pass
+        return {"id": ident, "status": "refuted", "backend": "", "time_s": dt, "detail": detail + ("\n" + model if model else "")}
+    return {"id": ident, "status": "unknown", "backend": "", "time_s": dt, "detail": detail}
+
+
 def discharge(ob: Obligation, use_cvc5: bool = True, both: bool = False) -> Obligation:
     if ob.status == "trivial":
         ob.backend = "simplifier"
